@@ -65,6 +65,32 @@ def coq_check(name, rows):
     v = vlib.parse_coq_value("M " + out[out.find("M ="):].replace("M =", " =", 1)) if "M =" in out else None
     return v, out[-300:]
 
+def failing_module_cases():
+    """systematic: a module whose body fails (each exception kind, incl. the ImportErrors of a nested import),
+    requested twice by the main program in each statement form, directly or through a tolerant importer;
+    every body logs its executions in a shared module.  Python: a failed module is not left in the module
+    store - every request runs the body again and fails again."""
+    fails = {"value": "raise ValueError('boom')", "zerodiv": "1 / 0", "importerror-raised": "raise ImportError('explicit')",
+             "import-missing-module": "import no_such_module_xyz", "from-missing-name": "from dep import absent",
+             "keyerror": "{}['k']", "nameerror": "undefined_name"}
+    forms = {"import": "import bad", "importas": "import bad as b2", "from": "from bad import ready", "star": "from bad import *"}
+    out = []
+    for fk, stmt in fails.items():
+        for pos in ("early", "late"):
+            body = "import log\nlog.events.append('bad body')\nready = False\n" + (stmt + "\nready = True\n" if pos == "early" else "ready = True\n" + stmt + "\nlast = 1\n")
+            files = {"log.py": "events = []\n", "dep.py": "present = 1\n", "bad.py": body,
+                     "user.py": "import log\nlog.events.append('user body')\ntry:\n    from bad import ready\n    have = 'bad imported ' + str(ready)\nexcept Exception:\n    have = 'bad unavailable'\n"}
+            for f1, s1 in forms.items():
+                for f2, s2 in forms.items():
+                    for via_user in (False, True):
+                        M = ["import log"]
+                        if via_user: M += ["import user", "print(user.have)"]
+                        for st in (s1, s2):
+                            M += ["try:", "    " + st, "    print('imported')", "except BaseException as e:", "    print('failed', isinstance(e, ImportError), isinstance(e, ValueError), isinstance(e, ZeroDivisionError), isinstance(e, KeyError), isinstance(e, NameError))"]
+                        M += ["print(log.events)", "import dep", "print(dep.present)"]
+                        out.append((dict(src="\n".join(M) + "\n", files=files), dict(kind="failing-module", failure=fk, position=pos, first=f1, second=f2, via_user=via_user)))
+    return out
+
 PROBES = [
  ("failed_import_not_cached", dict(src="try:\n    import bad\nexcept ValueError:\n    print('VE1')\ntry:\n    import bad\n    print('second import succeeded')\nexcept ValueError:\n    print('VE2')\nimport good\nprint(good.x)\n", files={"bad.py": "x = 1\nraise ValueError('boom')\n", "good.py": "x = 2\n"})),
  ("builtin_go_module_once", dict(src="import math\nimport math as m2\nfrom math import pi\nprint(m2 is math, pi == math.pi)\nmath.extra = 5\nimport math as m3\nprint(m3.extra)\n", files={"unused.py": "x=1\n"})),
@@ -95,6 +121,8 @@ def check(res):
         cases.append(c); metas.append(dict(kind="graph", **m))
     for k, c in PROBES:
         cases.append(c); metas.append(dict(kind=k))
+    for c, m in failing_module_cases():
+        cases.append(c); metas.append(m)
     impl = pydiff.run_impl(cases); ref = pydiff.run_ref(cases)
     mism = []; rows = []; rowmeta = []; nontrivial = 0
     for c, m, a, b in zip(cases, metas, impl, ref):
